@@ -123,8 +123,9 @@ def impl_exception(exc):
     return None
 
 
-class UnitTimeout(Exception):
-    pass
+class UnitTimeout(BaseException):
+    """Not an Exception: neither the implementation's nor the harness's 'except Exception' may swallow it
+    (the alarm fires once)."""
 
 
 def _alarm(signum, frame):
